@@ -114,9 +114,13 @@ def run_case(args):
             f.write(src)
         open(os.path.join(root, "a.html"), "w").write("a")
         results = {}
-        for path in ("string", "file", "lookup", "moddir"):
+        open(os.path.join(root, "main.html"), "w").write("main line 1\n\n\n<%include file='t.html'/>\nmain end\n")
+        for path in ("string", "file", "lookup", "moddir", "included"):
             try:
-                if path == "string":
+                if path == "included":
+                    # the faulty template is compiled while another template is rendering
+                    TemplateLookup(directories=[root]).get_template("main.html").render_unicode()
+                elif path == "string":
                     Template(src, uri="t.html", filename=None)
                 elif path == "file":
                     Template(filename=fn)
@@ -127,8 +131,9 @@ def run_case(args):
                 results[path] = ("no exception",)
             except (exceptions.SyntaxException, exceptions.CompileException) as e:
                 tb = exceptions.RichTraceback()
+                shown_src = tb.source.decode() if isinstance(tb.source, bytes) else tb.source
                 results[path] = (type(e).__name__, e.lineno, e.pos, e.filename, e.source == src or (isinstance(e.source, bytes) and e.source.decode() == src),
-                                 tb.lineno, str(e))
+                                 tb.lineno if shown_src == src else "line %r of another text" % (tb.lineno,), str(e))
             except Exception as e:
                 results[path] = ("other", type(e).__name__, str(e)[:100])
         problems = []
